@@ -216,6 +216,8 @@ class Lexer(object):
         # the line terminator token that followed a restricted
         # production keyword (section 7.9.1), pending the next real token
         self.restricted_line_terminator = None
+        # the token in front of which the last semicolon was inserted
+        self.auto_semi_token = None
         self.build()
 
         if not with_comments:
@@ -376,6 +378,9 @@ class Lexer(object):
                 token.type == 'RBRACE' or self._is_prev_token_lt(token))):
             if token:
                 self.next_tokens.append(token)
+                # the semicolon for this line terminator is now done
+                token.after_line_terminator = False
+            self.auto_semi_token = token
             return self._create_semi_token(token)
 
     def _set_tokens(self, new_token):
